@@ -222,6 +222,27 @@ def call_other(I, f, args, kwargs):
         return I.native(f, *args, **kwargs)
     if isinstance(f, types.FunctionType) or isinstance(f, types.BuiltinFunctionType):
         I.unsupported("no model for %s.%s with symbolic arguments" % (getattr(f, "__module__", "?"), getattr(f, "__qualname__", f)))
+    if isinstance(f, (operator.attrgetter, operator.itemgetter, operator.methodcaller)) and len(args) == 1 and not kwargs:
+        # value-agnostic accessors: the same lookups the equivalent lambda would make, through the interpreter
+        spec = f.__reduce__()
+        obj = args[0]
+        if isinstance(f, operator.attrgetter):
+            def one(name):
+                o = obj
+                for part in name.split("."):
+                    o = I.get_attr(o, part)
+                return o
+            names = spec[1]
+            return one(names[0]) if len(names) == 1 else tuple(one(n) for n in names)
+        if isinstance(f, operator.itemgetter):
+            keys = spec[1]
+            return I.getitem(obj, keys[0]) if len(keys) == 1 else tuple(I.getitem(obj, k) for k in keys)
+        if isinstance(f, operator.methodcaller):
+            if spec[0] is operator.methodcaller:
+                name, margs, mkw = spec[1][0], list(spec[1][1:]), {}
+            else:          # (functools.partial(methodcaller, name, **kwargs), args)
+                name, margs, mkw = spec[0].args[0], list(spec[1]), dict(spec[0].keywords)
+            return I.call(I.get_attr(obj, name), margs, mkw)
     # arbitrary callable object
     call = getattr(type(f), "__call__", None)
     if isinstance(call, types.FunctionType) and I.func_info(call) is not None:
